@@ -164,6 +164,33 @@ def step (s : Sig) (c : Cfg) (op : Json) : R (Cfg × Json) := do
   | "resume" => return ({ c with tracking := true }, .str "ok")
   | _ => throw "bad-op"
 
+/-- Ops that may change the signature or apply several edits with partial effect. -/
+def stepSig (s : Sig) (c : Cfg) (op : Json) : R (Sig × Cfg × Json) := do
+  let a ← jlist op
+  let name ← jstr (← jidx a 0)
+  match name with
+  | "update_callable" =>
+    let ns ← parseSig (← jidx a 1)
+    let drop ← jbool (← jidx a 2)
+    match Cfg.updateCallable ns c drop with
+    | .ok c' => return (ns, c', .str "ok")
+    | .error _ => return (s, c, errJson)
+  | "assign" | "copy_with" =>
+    let kvs ← jlist (← jidx a 1)
+    let mut c := c
+    let c0 := c
+    for kv in kvs do
+      let b ← jlist kv
+      match c.setAttr s (← jstr (← jidx b 0)) (← parseVal (← jidx b 1)) with
+      | .ok c' => c := c'
+      | .error _ =>
+        -- assign mutates in place up to the failing name; a failing copy_with discards the copy
+        return (s, if name == "copy_with" then c0 else c, errJson)
+    return (s, c, .str "ok")
+  | _ =>
+    let (c', r) ← step s c op
+    return (s, c', r)
+
 def handle (req : Json) : R Json := do
   let s ← parseSig (← jget req "sig")
   let args ← (← jlist (← jget req "args")).mapM parseVal
@@ -174,12 +201,15 @@ def handle (req : Json) : R Json := do
   match construct s args kwargs with
   | none => return mkObj [("init", errJson), ("steps", .arr #[])]
   | some c0 =>
+    let initObs := observe s c0
     let mut c := c0
+    let mut s := s
     let mut outs : Array Json := #[]
     for op in ops do
-      let (c', r) ← step s c op
+      let (s', c', r) ← stepSig s c op
       c := c'
+      s := s'
       outs := outs.push (mkObj [("res", r), ("state", observe s c)])
-    return mkObj [("init", observe s c0), ("steps", .arr outs)]
+    return mkObj [("init", initObs), ("steps", .arr outs)]
 
 end Driver.ArgStore
